@@ -1,4 +1,5 @@
 import PV.Lemmas.SocketCalls
+import PV.Lemmas.SocketIntegrity
 /-!
 # C09 — Sockets deliver data intact despite retries
 
@@ -444,5 +445,60 @@ example : (call { demoSock with blocking := false } (.connect (.native [2, 0, 0,
       [{ sys := .connect, ret := .err EINPROGRESS }, pollR (.ok 1)]).toOption.map
       (fun r => (r.out.ret, r.out.err.map (·.code), r.tr.length, r.rest.length)) =
     some (0, some P_ERROR_IO_IN_PROGRESS, 1, 1) := by decide
+
+/-! ## 3. `stream_integrity`  (kernel contract: `pipeSendOk` / `pipeRecvOk` of `PV.Model.Socket`, trusted)
+
+A run is any list of `p_socket_send` / `p_socket_receive` calls on open sockets in any mode, each with
+**any** script the kernel contract allows for the current pipe (`runOk`, `stepOk`, `pipeTrace` in
+`PV.Lemmas.SocketIntegrity`): EINTR / would-block / short transfers / poll time-outs / hard errors in
+any positions, any chunk and buffer sizes below 4 GiB.  `sent` accumulates the prefixes the sender was
+*told* were sent (`buf.take ret`), `received` the bytes successful receives handed out. -/
+
+/-- no loss, no duplication, no reordering, no corruption: what was received, followed by what is still
+    in flight, is exactly what was reported sent -/
+theorem stream_integrity (steps : List IOStep) (σ : StreamState) (h : runOk {} steps σ) :
+    σ.received ++ σ.pipe = σ.sent :=
+  stream_integrity_run steps σ h
+
+/-- one call: a successful send moved exactly the reported prefix into the pipe, a failed one nothing (so
+    retrying the whole buffer after an error duplicates nothing) -/
+theorem send_moves_reported_prefix (s : Sock) (hc : s.closed = false) (b : Bytes) (h0 : b.length ≠ 0) (hlt : b.length < 2 ^ 32)
+    (script : Script) (e : Int) (r : CallResult) (h : call s (.send (some b) b.length) script e = .ok r)
+    (p p' : Pipe) (hk : pipeTrace p r.tr p') :
+    match r.out.err with
+    | none => ∃ k, r.out.ret = Int.ofNat k ∧ 1 ≤ k ∧ k ≤ b.length ∧ p' = p ++ b.take k
+    | some _ => p' = p :=
+  send_pipe s hc b h0 hlt script e r h p p' hk
+
+/-- non-vacuity: interrupted + short write of `[1,2,3]`, then an interrupted non-blocking read -/
+example : ∃ σ, runOk {} [.sendStep demoTx [1, 2, 3] demoTxScript 0, .recvStep demoRx 8 demoRxScript 0] σ ∧ σ.received = [1, 2] ∧ σ.sent = [1, 2] :=
+  ⟨_, demo_run, rfl, rfl⟩
+
+/-! ## 4. `datagram_exact`  (kernel contract: `bagRecvOk`, trusted) -/
+
+/-- a successful `p_socket_receive_from` hands out exactly ONE queued datagram, cut to the receive buffer
+    length, removes exactly that one from the queue, and calls `p_socket_address_new_from_native` with the
+    kernel's sockaddr and the kernel's length for it (the result of that opaque conversion — C17 — is what
+    `*address` gets) -/
+theorem datagram_exact (s : Sock) (hc : s.closed = false) (buflen : Nat) (h0 : 0 < buflen) (hlt : buflen < 2 ^ 32)
+    (script : Script) (e : Int) (r : CallResult)
+    (h : call s (.receiveFrom true false buflen) script e = .ok r) (hok : r.out.err = none)
+    (bag bag' : Bag) (hsa : ∀ x ∈ bag, x.2.length ≤ 128) (hk : bagTrace bag r.tr bag') :
+    ∃ d sa l1 l2 pre res a,
+      bag = l1 ++ (d, sa) :: l2 ∧ bag' = l1 ++ l2 ∧
+      r.out.ret = Int.ofNat (min d.length buflen) ∧ r.out.data = d.take buflen ∧
+      r.tr = pre ++ [⟨recvfromCall s buflen, res⟩, ⟨.fromNative sa (Int.ofNat sa.length), a⟩] ∧
+      res.ret = .ok (min d.length buflen) ∧
+      (∀ ev ∈ pre, ev.call = recvfromCall s buflen → ev.res.failed = true) ∧
+      (∀ ev ∈ pre, ev.call = pollCall s P_SOCKET_IO_CONDITION_POLLIN ∨ ev.call = recvfromCall s buflen) ∧
+      r.out.addr = (if a.ret = .ok 0 then none else some (sa, Int.ofNat sa.length)) :=
+  datagram_exact_call s hc buflen h0 hlt script e r h hok bag bag' hsa hk
+
+/-- a failed `p_socket_receive_from` consumed no datagram -/
+theorem datagram_failed_consumes_nothing (s : Sock) (hc : s.closed = false) (buflen : Nat) (h0 : 0 < buflen)
+    (script : Script) (e : Int) (r : CallResult)
+    (h : call s (.receiveFrom true false buflen) script e = .ok r) (pe : PErr) (herr : r.out.err = some pe)
+    (bag bag' : Bag) (hk : bagTrace bag r.tr bag') : bag' = bag :=
+  datagram_failed_keeps_queue s hc buflen h0 script e r h pe herr bag bag' hk
 
 end PV.Socket
